@@ -13,7 +13,7 @@ import dask
 from dask._task_spec import GraphNode, List, Task, TaskRef, parse_input
 from dask.base import clone_key, get_name_from_key, tokenize
 from dask.core import flatten, ishashable, keys_in_tasks, reverse_dict
-from dask.highlevelgraph import HighLevelGraph, Layer
+from dask.highlevelgraph import HighLevelGraph, Layer, MaterializedLayer
 from dask.optimization import fuse
 from dask.typing import Key
 from dask.utils import _deprecated, ensure_dict, homogeneous_deepmap
@@ -1566,7 +1566,7 @@ def fuse_roots(graph: HighLevelGraph, keys: list):
                 del layers[dep]
                 del dependencies[dep]
 
-            layers[name] = new
+            layers[name] = MaterializedLayer(new, annotations=layer.annotations)
             dependencies[name] = set()
 
     return HighLevelGraph(layers, dependencies)
